@@ -47,8 +47,22 @@ def main():
                 mod.attach(ctx, shard)
             try:
                 mod.run(shard, ctx)
-            except Exception:
-                ctx.crash("shard %s" % shard.get("name"))
+            except Exception as e:
+                # an exception raised *inside the library* by a call the workload makes as an ordinary,
+                # documented use (building a chord it will then inspect, ...) is an observation about
+                # the library, not a harness fault
+                tb = traceback.extract_tb(sys.exc_info()[2])
+                inner = tb[-1] if tb else None
+                lib = os.path.realpath(repo) + os.sep
+                if inner is not None and os.path.realpath(inner.filename).startswith(lib + "mingus"):
+                    callsite = next((f for f in reversed(tb) if "/rv/props/" in f.filename), None)
+                    ctx.violation("workload: a library call the workload relies on raised %s" % type(e).__name__,
+                                  {"exception": repr(e)[:300], "raised_in": "%s:%s" % (inner.filename[len(lib):], inner.name),
+                                   "workload_line": callsite.line if callsite else None},
+                                  expected="a value", observed=repr(e)[:200],
+                                  mechanism="unexpected-exception:%s:%s" % (inner.name, type(e).__name__))
+                else:
+                    ctx.crash("shard %s" % shard.get("name"))
             r = ctx.result()
             r["reach"] = reach.stop_reach() if anchors and not shard.get("no_reach") else {}
             r["attached"] = list(contracts.ATTACHED)
